@@ -360,14 +360,24 @@ impl Proj {
             t += &format!("pool {}\n  depth = {}\n", p, d);
         }
         let use_var = st % 4 >= 2;
+        // one generic rule shared by all plain command steps: command text and pool come from build-level bindings
+        let shared = st % 7 == 5;
+        if shared {
+            t += "rule shared\n  command = $cmdtext $in -- $out\n  pool = $mypool\n";
+        }
+        // everything so far (header, builddir, pools, the shared rule) stays in front of an include
+        let prelude = std::mem::take(&mut t);
         let mut inc = String::new();
         let has_subgen = self.steps.iter().any(|s| s.subgen);
         let split = st % 5 == 3 || has_subgen;
         for (k, &i) in self.order.iter().enumerate() {
             let s = &self.steps[i];
             let mut b = String::new();
+            let via_shared = shared && !s.phony && s.deps == 0 && s.rsp.is_none() && !s.regen;
             let rule = if s.phony {
                 "phony".to_string()
+            } else if via_shared {
+                "shared".to_string()
             } else {
                 let rn = rule_name(s.uid);
                 if use_var {
@@ -411,7 +421,12 @@ impl Proj {
                 b += &format!(" |@ {}", esc_list(&s.val));
             }
             b += "\n";
-            if let Some(p) = &s.pool {
+            if via_shared {
+                b += &format!("  cmdtext = cmd{}v{}\n", s.uid, s.ver);
+                if let Some(p) = &s.pool {
+                    b += &format!("  mypool = {}\n", p);
+                }
+            } else if let Some(p) = &s.pool {
                 if !s.phony {
                     b += &format!("  pool = {}\n", p);
                 }
@@ -450,7 +465,7 @@ impl Proj {
         if !self.defaults.is_empty() {
             t += &format!("default {}\n", esc_list(&self.defaults));
         }
-        files.insert(self.manifest.clone(), t);
+        files.insert(self.manifest.clone(), prelude + &t);
         files
     }
 }
